@@ -299,7 +299,37 @@ def bounded_sequence_guard(ctx, R):
             return l is not None and l == mx
         ne = lambda e: e[0] == "call" and e[1].endswith("::ne") and len(e[2]) == 2 and ((same_var(e[2][0]) and zero_some(e[2][1])) or (same_var(e[2][1]) and zero_some(e[2][0])))
         eq = lambda e: e[0] == "call" and e[1].endswith("::eq") and len(e[2]) == 2 and ((same_var(e[2][0]) and zero_some(e[2][1])) or (same_var(e[2][1]) and zero_some(e[2][0])))
-        g = L.guard_edges_multi(b, [(ne, True), (eq, False)])
+        # pattern form (`matches!(max, Some(0))`, `if let Some(0) = max`): the edge on which `max` is None, and the edge on
+        # which its payload is not 0, both establish `max != Some(0)`
+        extra = []
+        for sb_, e_, targets_, otherwise_ in b.switch_edges():
+            # classify the raw switch operand: discriminant of `max`, or the payload of `max`
+            o_ = b.blocks[sb_]["term"]["o"]
+            pl_ = F.op_place(o_)
+            kind_ = None
+            if pl_ and len(pl_) == 1:
+                ds_ = [d for d in b.defs().get(pl_[0], []) if d[2] == "assign"]
+                if len(ds_) == 1:
+                    r_ = ds_[0][3]
+                    if r_["rv"] == "discr" and r_["p"][0] == mx and len(r_["p"]) == 1:
+                        kind_ = "discr"
+                    elif r_["rv"] == "use" and F.op_place(r_["o"]) and F.op_place(r_["o"])[0] == mx and any(
+                            isinstance(x, dict) and x.get("dc") == "Some" for x in F.op_place(r_["o"])[1:]):
+                        kind_ = "payload"
+            elif pl_ and pl_[0] == mx and any(isinstance(x, dict) and x.get("dc") == "Some" for x in pl_[1:]):
+                kind_ = "payload"
+            if kind_ == "discr":
+                extra += [(sb_, tb) for v, tb in targets_ if v == 0]
+                if not any(v == 0 for v, _ in targets_):
+                    extra.append((sb_, otherwise_))
+            elif kind_ == "payload":
+                # switchInt on the payload: every target but the one for 0
+                extra += [(sb_, tb) for v, tb in targets_ if v != 0]
+                if any(v == 0 for v, _ in targets_):
+                    extra.append((sb_, otherwise_))
+        payload_ne0 = lambda e: e[0] == "bin" and e[1] == "Ne" and e[3][0] == "const" and e[3][1] == 0 and e[2][0] == "place" and e[2][1][0] == mx
+        payload_eq0 = lambda e: e[0] == "bin" and e[1] == "Eq" and e[3][0] == "const" and e[3][1] == 0 and e[2][0] == "place" and e[2][1][0] == mx
+        g = L.guard_edges_multi(b, [(ne, True), (eq, False), (payload_ne0, True), (payload_eq0, False)], extra_edges=extra)
         still = L.dominated_by_cut(b, [bi], g) if g else [bi]
         ctx.check(mx is not None and bool(g) and not still, R, "bounded_sequence:max-nonzero@" + b.id.rsplit("::", 1)[1],
                   "the call is dominated by `max != Some(0)` for the value passed as max",
